@@ -436,6 +436,39 @@ var c15ErrLexerModel = &Model{
 	Class:  c15Class,
 }
 
+// c15Fmt5dModel ties the model's rendering of "%5d" (decimal, left padded to 5, longer numbers in full) to fmt.
+var c15Fmt5dModel = &Model{
+	Name: "fmt5d",
+	Gen: func(r *Rng, tier string, emit func(Case)) {
+		mk := func(n int64) {
+			emit(Case{Fn: "fmt5d", Args: []int64{n}, Note: fmt.Sprintf("%%5d of %d", n)})
+		}
+		for n := int64(-12); n <= 1100; n++ {
+			mk(n)
+		}
+		for _, b := range []int64{9999, 10000, 99999, 100000, 999999, 1000000, 1 << 31, 1 << 32, 999999999999, 1000000000000, 1<<62 - 1, 1 << 62, -99999, -9999, -10000} {
+			mk(b - 1)
+			mk(b)
+			mk(b + 1)
+		}
+		m := 400
+		if tier == "thorough" {
+			m = 20000
+		}
+		for i := 0; i < m; i++ {
+			mk(int64(r.U64()>>uint(1+r.Intn(62))) * int64(1-2*(i%7/6)))
+		}
+	},
+	Impl: func(c Case) []int64 {
+		var out []int64
+		for _, ch := range fmt.Sprintf("%5d", int(c.Args[0])) {
+			out = append(out, int64(ch))
+		}
+		return out
+	},
+	Class: func(c Case, out []int64) string { return fmt.Sprintf("width%d", len(out)) },
+}
+
 // ---- oracle 1: the property text for Position, written independently of the model -----------------
 
 func c15IsBreakEnd(t []byte, e int) bool {
@@ -1158,7 +1191,7 @@ func c15ErrorOracle(r *Rng, tier string, rep *Report) {
 
 func init() {
 	props["C15"] = &PropSpec{
-		Models: []*Model{c15PositionModel, c15ErrLexerModel},
+		Models: []*Model{c15PositionModel, c15ErrLexerModel, c15Fmt5dModel},
 		Oracles: []*Oracle{
 			{Name: "c15-position-text", Run: c15PositionOracle},
 			{Name: "c15-error-offsets", Run: c15ErrorOracle},
